@@ -14,7 +14,10 @@
 (*           a second proposal on the same head                                                                    *)
 (*   Dead    the driver could not go on with this world (not a verdict)                                            *)
 (* The steps are the actions of module Rewards (Distribute); a trace is accepted iff its lines follow them.  `bad`  *)
-(* collects the broken PROPERTY clauses (verdict), `odd` the broken clauses of the module's own exact predictions   *)
+(* collects the broken PROPERTY clauses (verdict: NonNeg, Conservation, CategoryWithinShare, OnlyEntitled,          *)
+(* PoolGetsDelegatorRewards [destination, split, ledger], LockedStakeParts, NoUnexplainedIncrease, ReplicasAgree),  *)
+(* `odd` the broken clauses of the module's own exact predictions [EntitledPaid, ExactLedger, MintedMatchesCredits,  *)
+(* AnnouncedPool, PenalisedByRule]                                                                                 *)
 (* (drift: counted and reported, never a verdict); the postcondition prints each with its first trace line.        *)
 (* Amounts are exact: base-10^4 limb sequences, arithmetic by BigNat.                                              *)
 EXTENDS Rewards, Json, IOUtils
@@ -89,11 +92,12 @@ TPay == /\ l <= Len(Trace) /\ Trace[l].ev = "Pay" /\ l' = l + 1
                split == {i \in pos : cs[i][1] \notin InviteeCats \cup {"foundation", "zero"}}
            IN /\ Distribute(step)
               /\ Note(If(\A i \in 1..Len(cs) : ~BN!IsNeg(cs[i][4]) /\ ~BN!IsNeg(cs[i][5]), "NonNeg")
-                      \cup UNION {If(may(cs[i]), "OnlyEntitled:" \o cs[i][1]) : i \in pos}
-                      \cup UNION {If(cs[i][4] = <<>> \/ (cs[i][2] \in Keys(pop) /\ cs[i][3] = Dest(X, cs[i][1], cs[i][2])), "PoolGetsDelegatorRewards:destination") : i \in pos},
-                      UNION {If(\E i \in pos : cs[i][1] = m[1] /\ cs[i][2] = m[2], "EntitledPaid:" \o m[1]) : m \in must}
-                      \cup UNION {If(SplitOk(cs[i]), "StakeShareByStatus") : i \in split}
-                      \cup UNION {If(cs[i][4] = <<>>, "InviteeRewardIsStake") : i \in {j \in pos : cs[j][1] \in InviteeCats}})
+                      \cup UNION {If(may(cs[i]), "OnlyEntitled:" \o cs[i][1] \o ":" \o ToString(cs[i][2])) : i \in pos}
+                      \cup UNION {If(cs[i][4] = <<>> \/ (cs[i][2] \in Keys(pop) /\ cs[i][3] = Dest(X, cs[i][1], cs[i][2])), "PoolGetsDelegatorRewards:destination") : i \in pos}
+                      \* how much of a reward is the balance part (the part a pool takes) and how much the stake part: by the status
+                      \cup UNION {If(SplitOk(cs[i]), "PoolGetsDelegatorRewards:split") : i \in split}
+                      \cup UNION {If(cs[i][4] = <<>>, "LockedStakeParts:invitee-reward-is-stake") : i \in {j \in pos : cs[j][1] \in InviteeCats}},
+                      UNION {If(\E i \in pos : cs[i][1] = m[1] /\ cs[i][2] = m[2], "EntitledPaid:" \o m[1]) : m \in must})
               /\ sums' = [s \in ShareNames |-> BN!Add(sums[s], Total(Sel(cs, LAMBDA c : c[1] \in StepCats(step) /\ ShareOf(upg, c[1]) = s)))]
               /\ crs' = crs \o cs
         /\ UNCHANGED ep
@@ -149,12 +153,13 @@ TBlock ==
             \cup UNION {If(/\ BN!Leq(BalOf(post, k), BN!Add(BN!Add(BalOf(pre, k), balTo(k)), slack(k)))
                            /\ BN!Leq(StakeOf(post, k), BN!Add(StakeOf(pre, k), stakeTo(k))), "NoUnexplainedIncrease") : k \in AllKeys}
             \cup UNION {If(BalOf(post, p) = <<>> \/ BN!Leq(BN!Add(BalOf(pre, p), fromOthers(p)), BalOf(post, p)), "PoolGetsDelegatorRewards:ledger") : p \in pools}
+            \* the locked part of a stake: unlocked at the configured age, grown by exactly the invitee rewards (upgrade 12)
+            \cup UNION {If(gone(k) \/ LockedOf(post, k) = lockedWant(k), "LockedStakeParts:ledger") : k \in DOMAIN pop}
             \cup If(/\ \A i \in 1..Len(reps) : reps[i].ok /\ reps[i].root = e.root /\ reps[i].digest = reps[1].digest
                     /\ e.root2 = e.root, "ReplicasAgree"),
             \* ------- exact predictions (drift)
             UNION {If(~quiet(k) \/ (/\ (BalOf(post, k) = BN!Add(BalOf(pre, k), balTo(k)) \/ BalOf(post, k) = <<>>)
                                     /\ StakeOf(post, k) = BN!Add(StakeOf(pre, k), stakeTo(k))), "ExactLedger") : k \in AllKeys}
-            \cup UNION {If(gone(k) \/ LockedOf(post, k) = lockedWant(k), "LockedStakeRule") : k \in DOMAIN pop}
             \cup If(e.minted = Total(all), "MintedMatchesCredits")
             \cup If(ep.failed \/ e.total = pool, "AnnouncedPool"))
     /\ pc' = 0 /\ ep' = <<>> /\ UNCHANGED <<pop, upg, paid, sums, crs>>
